@@ -151,7 +151,7 @@ async function run (req) {
         const apiProblems = []
         // a handler may use any method of V8's CallSite API on what it is given
         const CALLSITE_API = ['getThis', 'getTypeName', 'getFunction', 'getFunctionName', 'getMethodName', 'getFileName', 'getLineNumber', 'getColumnNumber', 'getEvalOrigin', 'isToplevel', 'isEval', 'isNative', 'isConstructor', 'isAsync', 'isPromiseAll', 'getPromiseIndex', 'getScriptNameOrSourceURL', 'getScriptHash', 'getEnclosingLineNumber', 'getEnclosingColumnNumber', 'getPosition', 'toString']
-        const userHandler = (e, cs) => { for (const c of cs) { if (c && c.callSite) { for (const m of CALLSITE_API) { if (typeof c.callSite[m] === 'function') { let bad = null; try { if (typeof c[m] !== 'function') bad = 'missing'; else c[m]() } catch (err) { bad = 'threw ' + (err && err.message) } if (bad && !apiProblems.length) apiProblems.push({ method: m, what: bad }) } } } userFrames.push({ fn: c.getFunctionName(), file: c.getFileName(), line: c.getLineNumber(), col: c.getColumnNumber(), raw: c.callSite ? { file: c.callSite.getFileName(), line: c.callSite.getLineNumber(), col: c.callSite.getColumnNumber() } : null, isEval: c.isEval(), str: (() => { try { return String(c) } catch (e) { return 'toString threw' } })() }) } return 'handled' }
+        const userHandler = (e, cs) => { for (const c of cs) { if (c && c.callSite) { for (const m of CALLSITE_API) { if (typeof c.callSite[m] === 'function') { let bad = null; try { if (typeof c[m] !== 'function') bad = 'missing'; else c[m]() } catch (err) { bad = 'threw ' + (err && err.message) } if (bad && !apiProblems.length) apiProblems.push({ method: m, what: bad }) } } } userFrames.push({ fn: c.getFunctionName(), file: c.getFileName(), line: c.getLineNumber(), col: c.getColumnNumber(), raw: c.callSite ? { file: c.callSite.getFileName(), line: c.callSite.getLineNumber(), col: c.callSite.getColumnNumber() } : null, isEval: c.isEval(), evalOrigin: (() => { try { return c.getEvalOrigin() } catch (e) { return 'getEvalOrigin threw' } })(), str: (() => { try { return String(c) } catch (e) { return 'toString threw' } })() }) } return 'handled' }
         // all three runs are started from the same source line, so that the harness' own frames are identical
         const runs = [[orig, rawHandler], [rewr, p.getPrepareStackTrace(userHandler)], [rewr, p.getPrepareStackTrace(undefined)]]
         const outs = []
@@ -181,7 +181,24 @@ async function run (req) {
             if (typeof g.str === 'string' && !alts.some(a => lines.some(l => g.str.includes(a.path + ':' + l + ':')))) {
               late.push({ step: i, kind: 'callsite-tostring-untranslated', mode: 'user', site: step.site, frame: k, expectedPath: want.path, got: g.str })
             }
-          } else if (!e.isEval) {
+          } else if (e.isEval) {
+            // eval code: the frame says where eval was called (`eval at fn (file:line:column)`), a position inside the
+            // rewritten file like any other; a handler reads it through getEvalOrigin() or String(callSite)
+            const m = /\((.*):(\d+):(\d+)\)/.exec(e.evalOrigin || '')
+            if (m && m[1] === step.file) {
+              const want = expectFor(cur.step, +m[2])
+              const innermost = (text) => { const mm = /\(((?:.:)?[/\\][^()]*):(\d+):(\d+)\)/.exec(String(text)); return mm ? { file: mm[1], line: +mm[2] } : null }
+              const got = innermost(g.evalOrigin)
+              if (!got || !accept(want, got.file, got.line)) {
+                problems.push({ step: i, kind: 'wrong-location', mode: 'user-eval-origin', site: step.site, frame: k, expected: want, got: g.evalOrigin })
+                break
+              }
+              const gotStr = innermost(g.str)
+              if (!gotStr || !accept(want, gotStr.file, gotStr.line)) {
+                late.push({ step: i, kind: 'callsite-tostring-untranslated', mode: 'user-eval-origin', site: step.site, frame: k, expectedPath: want.path, got: g.str })
+              }
+            }
+          } else {
             if (g.file !== e.file || g.line !== e.line || g.col !== e.col) { problems.push({ step: i, kind: 'foreign-frame-changed', mode: 'user', frame: k, expected: e, got: g }); break }
           }
         }
